@@ -197,6 +197,212 @@ func finiteLang(r *syntax.Regexp, limit int) ([]string, bool) {
 	return nil, false
 }
 
+
+// ---- shape of simple anchored patterns ----
+// A pattern of the form ^ a1 a2 ... an $ where every atom is a literal ASCII character, a digit class or a bounded
+// repeat \d{m,n}, and only the last atom has a variable length, is equivalent to: the length lies between the bounds
+// and the byte at each position belongs to its atom. shapeFacts returns that characterisation of a match (an iff).
+type shapeAtom struct {
+	lit      rune // 0: digit
+	min, max int
+}
+
+func patternShape(pat string) ([]shapeAtom, bool) {
+	re, err := syntax.Parse(pat, syntax.Perl)
+	if err != nil || re.Op != syntax.OpConcat || len(re.Sub) < 3 {
+		return nil, false
+	}
+	subs := re.Sub
+	if !(subs[0].Op == syntax.OpBeginText || subs[0].Op == syntax.OpBeginLine) || !(subs[len(subs)-1].Op == syntax.OpEndText || subs[len(subs)-1].Op == syntax.OpEndLine) {
+		return nil, false
+	}
+	var atoms []shapeAtom
+	for _, a := range subs[1 : len(subs)-1] {
+		switch {
+		case a.Op == syntax.OpLiteral && a.Flags&syntax.FoldCase == 0:
+			for _, r := range a.Rune {
+				if r >= 0x80 {
+					return nil, false
+				}
+				atoms = append(atoms, shapeAtom{lit: r, min: 1, max: 1})
+			}
+		case isDigitClass(a):
+			atoms = append(atoms, shapeAtom{min: 1, max: 1})
+		case a.Op == syntax.OpRepeat && isDigitClass(a.Sub[0]) && a.Max >= a.Min && a.Max <= 8:
+			atoms = append(atoms, shapeAtom{min: a.Min, max: a.Max})
+		default:
+			return nil, false
+		}
+	}
+	for i, a := range atoms {
+		if a.min != a.max && i != len(atoms)-1 {
+			return nil, false
+		}
+	}
+	return atoms, true
+}
+
+func (x *Exec) shapeFacts(st *State, ri *RegexInfo, s *Term) {
+	atoms, ok := patternShape(ri.Pattern)
+	if !ok || hasFreeBound(s) {
+		return
+	}
+	key := [2]int{reMatched(ri, s).id, -77}
+	if x.typed[key] {
+		return
+	}
+	x.typed[key] = true
+	isDigit := func(b *Term) *Term { return And(Le(IntLit(48), b), Le(b, IntLit(57))) }
+	var cs []*Term
+	pos := 0
+	lmin, lmax := 0, 0
+	for _, a := range atoms {
+		for k := 0; k < a.max; k++ {
+			b := strAt(s, IntLit(int64(pos+k)))
+			var c *Term
+			if a.lit != 0 {
+				c = Eq(b, IntLit(int64(a.lit)))
+			} else {
+				c = isDigit(b)
+			}
+			if k >= a.min {
+				c = Implies(Gt(strLen(s), IntLit(int64(pos+k))), c)
+			}
+			cs = append(cs, c)
+		}
+		pos += a.max
+		lmin += a.min
+		lmax += a.max
+	}
+	cs = append(cs, Le(IntLit(int64(lmin)), strLen(s)), Le(strLen(s), IntLit(int64(lmax))))
+	x.ctx.assumeGlobal(st, Eq(reMatched(ri, s), And(cs...)))
+}
+
+// shortNumFacts: a string of one to four decimal digits is a numeral with the obvious value (A-CODEC made concrete).
+func (x *Exec) shortNumFacts(st *State, s *Term) {
+	if hasFreeBound(s) {
+		return
+	}
+	key := [2]int{s.id, -78}
+	if x.typed[key] {
+		return
+	}
+	x.typed[key] = true
+	isDigit := func(b *Term) *Term { return And(Le(IntLit(48), b), Le(b, IntLit(57))) }
+	for L := 1; L <= 4; L++ {
+		conds := []*Term{Eq(strLen(s), IntLit(int64(L)))}
+		val := IntLit(0)
+		for k := 0; k < L; k++ {
+			b := strAt(s, IntLit(int64(k)))
+			conds = append(conds, isDigit(b))
+			val = Add(Mul(val, IntLit(10)), Sub(b, IntLit(48)))
+		}
+		x.ctx.assumeGlobal(st, Implies(And(conds...), And(strIsDigits(s), Eq(strNum(s), val))))
+	}
+}
+
+// runLen: the length of the run of byte c in s that starts at position q (0 when s[q] is not c or q is the end).
+func (x *Exec) runLen(st *State, s, q *Term, c int64) *Term {
+	n := UF("gs.runlen", SInt, s, q, IntLit(c))
+	key := [2]int{n.id, -81}
+	if !x.typed[key] {
+		x.typed[key] = true
+		k := BoundVar("k", SInt)
+		e := Add(q, n)
+		x.ctx.assumeGlobal(st, And(Le(IntLit(0), n), Le(e, strLen(s)),
+			Forall([]*Term{k}, Implies(And(Le(q, k), Lt(k, e)), Eq(strAt(s, k), IntLit(c))), []*Term{strAt(s, k)}),
+			Or(Eq(e, strLen(s)), Neq(strAt(s, e), IntLit(c))),
+			Implies(And(Lt(q, strLen(s)), Eq(strAt(s, q), IntLit(c))), Ge(n, IntLit(1)))))
+	}
+	return n
+}
+
+// firstIndexFacts: i = the first position of byte c in s (len(s) when there is none).
+func (x *Exec) firstIndex(st *State, s *Term, c int64) (*Term, *Term) {
+	i := UF("gs.firstindex", SInt, s, IntLit(c))
+	has := And(Le(IntLit(0), i), Lt(i, strLen(s)))
+	key := [2]int{i.id, -79}
+	if !x.typed[key] {
+		x.typed[key] = true
+		j := BoundVar("j", SInt)
+		x.ctx.assumeGlobal(st, And(Le(IntLit(0), i), Le(i, strLen(s)), Implies(has, Eq(strAt(s, i), IntLit(c))),
+			Forall([]*Term{j}, Implies(And(Le(IntLit(0), j), Lt(j, i)), Neq(strAt(s, j), IntLit(c))), []*Term{strAt(s, j)})))
+	}
+	return i, has
+}
+
+// ---- leftmost match of patterns of the form  c (class)+  (an optional capture around it) ----
+// findShape recognises such a pattern: an ASCII literal followed by at least one character of an ASCII-only class.
+func findShape(pat string) (c rune, class []rune, ok bool) {
+	re, err := syntax.Parse(pat, syntax.Perl)
+	if err != nil {
+		return 0, nil, false
+	}
+	for re.Op == syntax.OpCapture {
+		re = re.Sub[0]
+	}
+	if re.Op != syntax.OpConcat || len(re.Sub) != 2 {
+		return 0, nil, false
+	}
+	l, p := re.Sub[0], re.Sub[1]
+	if l.Op != syntax.OpLiteral || len(l.Rune) != 1 || l.Rune[0] >= 0x80 || l.Flags&syntax.FoldCase != 0 {
+		return 0, nil, false
+	}
+	if p.Op != syntax.OpPlus || p.Sub[0].Op != syntax.OpCharClass {
+		return 0, nil, false
+	}
+	cls := p.Sub[0].Rune
+	for i := 0; i+1 < len(cls); i += 2 {
+		if cls[i+1] >= 0x80 {
+			return 0, nil, false
+		}
+		if cls[i] <= l.Rune[0] && l.Rune[0] <= cls[i+1] {
+			return 0, nil, false // the literal must not be a class member (keeps "leftmost" simple)
+		}
+	}
+	return l.Rune[0], cls, true
+}
+
+func reFindLo(ri *RegexInfo, s *Term) *Term { return UF("re.find.lo."+reName(ri), SInt, s) }
+func reFindHi(ri *RegexInfo, s *Term) *Term { return UF("re.find.hi."+reName(ri), SInt, s) }
+
+// findFacts: [lo, hi) is the leftmost match of  c (class)+  in s (greedy: it ends where the class ends); lo == hi == 0
+// when there is no match.
+func (x *Exec) findFacts(st *State, ri *RegexInfo, s *Term) bool {
+	c, cls, ok := findShape(ri.Pattern)
+	if !ok || hasFreeBound(s) {
+		return ok
+	}
+	lo, hi := reFindLo(ri, s), reFindHi(ri, s)
+	key := [2]int{lo.id, -80}
+	if x.typed[key] {
+		return true
+	}
+	x.typed[key] = true
+	inClass := func(b *Term) *Term {
+		var alts []*Term
+		for i := 0; i+1 < len(cls); i += 2 {
+			alts = append(alts, And(Le(IntLit(int64(cls[i])), b), Le(b, IntLit(int64(cls[i+1])))))
+		}
+		return Or(alts...)
+	}
+	startsAt := func(j *Term) *Term {
+		return And(Eq(strAt(s, j), IntLit(int64(c))), Lt(Add(j, IntLit(1)), strLen(s)), inClass(strAt(s, Add(j, IntLit(1)))))
+	}
+	found := Lt(lo, hi)
+	k := BoundVar("k", SInt)
+	j := BoundVar("j", SInt)
+	j2 := BoundVar("j", SInt)
+	x.ctx.assumeGlobal(st, And(Le(IntLit(0), lo), Le(lo, hi), Le(hi, strLen(s)),
+		Implies(found, And(startsAt(lo), Ge(hi, Add(lo, IntLit(2))),
+			Forall([]*Term{k}, Implies(And(Lt(lo, k), Lt(k, hi)), inClass(strAt(s, k))), []*Term{strAt(s, k)}),
+			Or(Eq(hi, strLen(s)), Not(inClass(strAt(s, hi)))),
+			Forall([]*Term{j}, Implies(And(Le(IntLit(0), j), Lt(j, lo)), Not(startsAt(j))), []*Term{strAt(s, j)}))),
+		Implies(Not(found), And(Eq(lo, IntLit(0)), Eq(hi, IntLit(0)),
+			Forall([]*Term{j2}, Implies(And(Le(IntLit(0), j2), Lt(j2, strLen(s))), Not(startsAt(j2))), []*Term{strAt(s, j2)})))))
+	return true
+}
+
 func reName(ri *RegexInfo) string {
 	n := ri.Name
 	if i := strings.LastIndex(n, "/"); i >= 0 {
@@ -343,16 +549,84 @@ func init() {
 		res := Ite(matched, mkSlice(ref, IntLit(0), IntLit(int64(n+1))), nilSlice)
 		return &Val{T: res, Typ: callee.Signature.Results().At(0).Type()}
 	}
+	// FindAllStringSubmatch: some number of matches, each with one string per capture group plus the whole match.
+	// Nothing is said about where in the text they lie (A-CODEC).
+	prelude["regexp.(*Regexp).FindAllStringSubmatch"] = func(x *Exec, st *State, callee *ssa.Function, args []*Val, pos token.Pos) *Val {
+		x.trusted["A-CODEC"] = true
+		ri := x.regexOf(args[0])
+		x.job.regexUsed[ri.Name] = ri
+		n, _, _, _, err := classifyGroups(ri.Pattern)
+		if err != nil {
+			unsupportedf("bad pattern %q", ri.Pattern)
+		}
+		rt := callee.Signature.Results().At(0).Type()
+		inner := rt.Underlying().(*types.Slice).Elem()
+		ref := x.allocRef(st)
+		cnt := Fresh("findall.n", SInt)
+		arr := Fresh("findall.matches", arraySort(SInt, SSlice))
+		x.ctx.hwrite(st, arrMapName(inner), arraySort(SInt, SSlice), ref, arr)
+		k := BoundVar("k", SInt)
+		mk := Select(arr, k)
+		x.ctx.assume(st, And(Ge(cnt, IntLit(0)),
+			Forall([]*Term{k}, Implies(And(Le(IntLit(0), k), Lt(k, cnt)),
+				And(Eq(slLen(mk), IntLit(int64(n+1))), Ge(slOff(mk), IntLit(0)), Gt(slRef(mk), IntLit(0)), Lt(slRef(mk), st.alloc))), []*Term{Select(arr, k)})))
+		return &Val{T: mkSlice(ref, IntLit(0), cnt), Typ: rt}
+	}
+	preludeEffects["regexp.(*Regexp).FindAllStringSubmatch"] = []effSpec{{arrMapName(types.NewSlice(strT)), arraySort(SInt, SSlice)}}
 	preludeEffects["regexp.(*Regexp).FindStringSubmatch"] = []effSpec{{arrMapName(strT), arraySort(SInt, SStr)}}
+	prelude["regexp.(*Regexp).FindString"] = func(x *Exec, st *State, callee *ssa.Function, args []*Val, pos token.Pos) *Val {
+		x.trusted["A-CODEC"] = true
+		ri := x.regexOf(args[0])
+		x.job.regexUsed[ri.Name] = ri
+		s := args[1].T
+		if !x.findFacts(st, ri, s) {
+			return x.unmodelled(st, callee, args)
+		}
+		lo, hi := reFindLo(ri, s), reFindHi(ri, s)
+		return &Val{T: mkStr(strArr(s), Add(strOff(s), lo), Sub(hi, lo)), Typ: strT}
+	}
+	// ReplaceAllString for the one pattern  ^(.*?)\?+(.*)$  with a template "${1}" + X + "${2}" (X without `$`):
+	// the first run of question marks is replaced by X; a text without question mark is returned unchanged.
+	prelude["regexp.(*Regexp).ReplaceAllString"] = func(x *Exec, st *State, callee *ssa.Function, args []*Val, pos token.Pos) *Val {
+		x.trusted["A-CODEC"] = true
+		ri := x.regexOf(args[0])
+		x.job.regexUsed[ri.Name] = ri
+		src, repl := args[1].T, args[2].T
+		parts := x.job.concatParts[repl.id]
+		l0, ok0 := "", false
+		l2, ok2 := "", false
+		if len(parts) == 3 {
+			l0, ok0 = literalOf(parts[0])
+			l2, ok2 = literalOf(parts[2])
+		}
+		if ri.Pattern != `^(.*?)\?+(.*)$` || !ok0 || !ok2 || l0 != "${1}" || l2 != "${2}" {
+			return x.unmodelled(st, callee, args)
+		}
+		X := parts[1]
+		q, has := x.firstIndex(st, src, '?')
+		n := x.runLen(st, src, q, '?')
+		arr := UF("re.replq", arraySort(SInt, SInt), src, X)
+		rl := Add(Sub(strLen(src), n), strLen(X))
+		k1, k2, k3 := BoundVar("k", SInt), BoundVar("k", SInt), BoundVar("k", SInt)
+		noDollar := Not(x.strContains(st, X, StrLit("$")).T)
+		x.ctx.assumeGlobal(st, Implies(And(has, noDollar), And(
+			Forall([]*Term{k1}, Implies(And(Le(IntLit(0), k1), Lt(k1, q)), Eq(Select(arr, k1), strAt(src, k1))), []*Term{Select(arr, k1)}),
+			Forall([]*Term{k2}, Implies(And(Le(IntLit(0), k2), Lt(k2, strLen(X))), Eq(Select(arr, Add(q, k2)), strAt(X, k2))), []*Term{strAt(X, k2)}),
+			Forall([]*Term{k3}, Implies(And(Le(Add(q, n), k3), Lt(k3, strLen(src))), Eq(Select(arr, Add(Sub(k3, n), strLen(X))), strAt(src, k3))), []*Term{strAt(src, k3)}))))
+		fresh := x.freshVal(st, "replaceall", strT)
+		return &Val{T: Ite(has, Ite(noDollar, mkStr(arr, IntLit(0), rl), fresh.T), src), Typ: strT}
+	}
 	prelude["regexp.(*Regexp).MatchString"] = func(x *Exec, st *State, callee *ssa.Function, args []*Val, pos token.Pos) *Val {
 		x.trusted["A-CODEC"] = true
 		ri := x.regexOf(args[0])
 		x.job.regexUsed[ri.Name] = ri
+		x.shapeFacts(st, ri, args[1].T)
 		return &Val{T: reMatched(ri, args[1].T), Typ: boolT}
 	}
 	prelude["strconv.Atoi"] = func(x *Exec, st *State, callee *ssa.Function, args []*Val, pos token.Pos) *Val {
 		x.trusted["A-CODEC"] = true
 		s := args[0].T
+		x.shortNumFacts(st, s)
 		ok := UF("atoi.ok", SBool, s)
 		val := UF("atoi.val", SInt, s)
 		maxI, minI := IntLitStr(maxIntS), IntLitStr("-9223372036854775808")
@@ -410,7 +684,37 @@ func (x *Exec) strContains(st *State, s, sub *Term) *Val {
 func init() {
 	strT := types.Typ[types.String]
 	_ = strT
-	for _, nm := range []string{"strings.Replace", "strings.ReplaceAll", "strings.ToUpper", "strings.TrimSpace", "strings.Join"} {
+	// strings.Replace(s, old, new, 1): the first occurrence of old (position i) is replaced; s itself when there is none.
+	prelude["strings.Replace"] = func(x *Exec, st *State, callee *ssa.Function, args []*Val, pos token.Pos) *Val {
+		x.trusted["A-STR"] = true
+		n, okN := args[3].T.intVal()
+		if !okN || n != 1 {
+			return x.freshVal(st, "strings.Replace", strT)
+		}
+		s, o, nw := args[0].T, args[1].T, args[2].T
+		i := UF("gs.index", SInt, s, o)
+		has := Ge(i, IntLit(0))
+		occurs := func(j *Term, kk *Term) *Term { return Eq(strAt(s, Add(j, kk)), strAt(o, kk)) }
+		k := BoundVar("k", SInt)
+		j := BoundVar("j", SInt)
+		mism := func(jj *Term) *Term { return UF("gs.mismatch", SInt, s, o, jj) }
+		x.ctx.assumeGlobal(st, And(Le(IntLit(-1), i), Le(Add(i, strLen(o)), strLen(s)),
+			Implies(Eq(strLen(o), IntLit(0)), Eq(i, IntLit(0))),
+			Implies(has, Forall([]*Term{k}, Implies(And(Le(IntLit(0), k), Lt(k, strLen(o))), occurs(i, k)), []*Term{strAt(o, k)})),
+			// no occurrence before i (before the end, when there is none): position j differs from old at mismatch(j)
+			Forall([]*Term{j}, Implies(And(Le(IntLit(0), j), Lt(j, Ite(has, i, Add(Sub(strLen(s), strLen(o)), IntLit(1))))),
+				And(Le(IntLit(0), mism(j)), Lt(mism(j), strLen(o)), Not(occurs(j, mism(j))))), []*Term{mism(j)})))
+		arr := UF("gs.replace1", arraySort(SInt, SInt), s, o, nw)
+		rl := Add(Sub(strLen(s), strLen(o)), strLen(nw))
+		r := mkStr(arr, IntLit(0), rl)
+		k1, k2, k3 := BoundVar("k", SInt), BoundVar("k", SInt), BoundVar("k", SInt)
+		x.ctx.assumeGlobal(st, Implies(has, And(
+			Forall([]*Term{k1}, Implies(And(Le(IntLit(0), k1), Lt(k1, i)), Eq(Select(arr, k1), strAt(s, k1))), []*Term{Select(arr, k1)}),
+			Forall([]*Term{k2}, Implies(And(Le(IntLit(0), k2), Lt(k2, strLen(nw))), Eq(Select(arr, Add(i, k2)), strAt(nw, k2))), []*Term{strAt(nw, k2)}),
+			Forall([]*Term{k3}, Implies(And(Le(Add(i, strLen(o)), k3), Lt(k3, strLen(s))), Eq(Select(arr, Add(Sub(k3, strLen(o)), strLen(nw))), strAt(s, k3))), []*Term{strAt(s, k3)}))))
+		return &Val{T: Ite(has, r, s), Typ: strT}
+	}
+	for _, nm := range []string{"strings.ReplaceAll", "strings.ToUpper", "strings.TrimSpace", "strings.Join"} {
 		nm := nm
 		prelude[nm] = func(x *Exec, st *State, callee *ssa.Function, args []*Val, pos token.Pos) *Val {
 			x.trusted["A-STR"] = true
@@ -432,6 +736,34 @@ func init() {
 		has := x.hasSuffix(st, s, suf)
 		return &Val{T: Ite(has, mkStr(strArr(s), strOff(s), Sub(strLen(s), strLen(suf))), s), Typ: strT}
 	}
+	// strings.Split(s, sep) with a one-byte separator: a fresh slice whose first two parts are pinned down
+	// (everything before the first separator; then everything up to the second one, or the rest).
+	prelude["strings.Split"] = func(x *Exec, st *State, callee *ssa.Function, args []*Val, pos token.Pos) *Val {
+		x.trusted["A-STR"] = true
+		s := args[0].T
+		rt := callee.Signature.Results().At(0).Type()
+		sep, ok := literalOf(args[1].T)
+		ref := x.allocRef(st)
+		n := Fresh("split.n", SInt)
+		arr := Fresh("split.parts", arraySort(SInt, SStr))
+		x.ctx.hwrite(st, arrMapName(strT), arraySort(SInt, SStr), ref, arr)
+		x.ctx.assume(st, Ge(n, IntLit(1)))
+		if ok && len(sep) == 1 {
+			c := int64(sep[0])
+			i0, has0 := x.firstIndex(st, s, c)
+			rest := mkStr(strArr(s), Add(strOff(s), Add(i0, IntLit(1))), Sub(strLen(s), Add(i0, IntLit(1))))
+			i1, has1 := x.firstIndex(st, rest, c)
+			p0 := Select(arr, IntLit(0))
+			p1 := Select(arr, IntLit(1))
+			x.ctx.assume(st, And(
+				Implies(Not(has0), And(Eq(n, IntLit(1)), Eq(p0, s))),
+				Implies(has0, And(Ge(n, IntLit(2)), Eq(p0, mkStr(strArr(s), strOff(s), i0)))),
+				Implies(And(has0, Not(has1)), And(Eq(n, IntLit(2)), Eq(p1, rest))),
+				Implies(And(has0, has1), And(Ge(n, IntLit(3)), Eq(p1, mkStr(strArr(rest), strOff(rest), i1))))))
+		}
+		return &Val{T: mkSlice(ref, IntLit(0), n), Typ: rt}
+	}
+	preludeEffects["strings.Split"] = []effSpec{{arrMapName(strT), arraySort(SInt, SStr)}}
 	prelude["strings.TrimPrefix"] = func(x *Exec, st *State, callee *ssa.Function, args []*Val, pos token.Pos) *Val {
 		x.trusted["A-STR"] = true
 		s, pre := args[0].T, args[1].T
@@ -702,6 +1034,10 @@ func init() {
 	// spec-level access to the codec abstraction
 	specBuiltins["matches"] = func(ev *evaluator, args []*Val) *Val {
 		ri := ev.x.regexOf(args[0])
+		if !hasFreeBound(args[1].T) {
+			ev.own()
+			ev.x.shapeFacts(ev.st, ri, args[1].T)
+		}
 		return &Val{T: reMatched(ri, args[1].T), Typ: boolT}
 	}
 	specBuiltins["group"] = func(ev *evaluator, args []*Val) *Val {
@@ -755,10 +1091,49 @@ func init() {
 		}
 		return &Val{T: UF("gs.tolower", SStr, args[0].T), Typ: types.Typ[types.String]}
 	}
+	// findlo / findhi(pattern, s): the bounds of the leftmost match that FindString returns (patterns  c (class)+ )
+	specBuiltins["findlo"] = func(ev *evaluator, args []*Val) *Val {
+		ri := ev.x.regexOf(args[0])
+		ev.own()
+		if !ev.x.findFacts(ev.st, ri, args[1].T) {
+			ev.errorf("findlo: pattern %q is not of the form c(class)+", ri.Pattern)
+		}
+		return &Val{T: reFindLo(ri, args[1].T), Typ: intT}
+	}
+	specBuiltins["findhi"] = func(ev *evaluator, args []*Val) *Val {
+		ri := ev.x.regexOf(args[0])
+		ev.own()
+		if !ev.x.findFacts(ev.st, ri, args[1].T) {
+			ev.errorf("findhi: pattern %q is not of the form c(class)+", ri.Pattern)
+		}
+		return &Val{T: reFindHi(ri, args[1].T), Typ: intT}
+	}
+	// firstidx(s, c): the first position of byte c in s (len(s) if none); runlen(s, q, c): length of the run of c at q
+	specBuiltins["firstidx"] = func(ev *evaluator, args []*Val) *Val {
+		c, ok := args[1].T.intVal()
+		if !ok {
+			ev.errorf("firstidx needs a literal byte")
+		}
+		ev.own()
+		i, _ := ev.x.firstIndex(ev.st, args[0].T, c)
+		return &Val{T: i, Typ: intT}
+	}
+	specBuiltins["runlen"] = func(ev *evaluator, args []*Val) *Val {
+		c, ok := args[2].T.intVal()
+		if !ok {
+			ev.errorf("runlen needs a literal byte")
+		}
+		ev.own()
+		return &Val{T: ev.x.runLen(ev.st, args[0].T, args[1].T, c), Typ: intT}
+	}
 	specBuiltins["isdigits"] = func(ev *evaluator, args []*Val) *Val {
 		return &Val{T: strIsDigits(args[0].T), Typ: boolT}
 	}
 	specBuiltins["num"] = func(ev *evaluator, args []*Val) *Val {
+		if !hasFreeBound(args[0].T) {
+			ev.own()
+			ev.x.shortNumFacts(ev.st, args[0].T)
+		}
 		return &Val{T: strNum(args[0].T), Typ: intT}
 	}
 }
